@@ -7,7 +7,7 @@
    shapes, 0 < dt, 0 <= tol < dt/2. *)
 From Coq Require Import List ZArith Bool Arith Lia Reals Lra.
 From Flocq Require Import Core.Raux Core.Generic_fmt.
-From Inferno Require Import Base.Num Base.NumR Gen.Infra Gen.Interpolation Gen.Extrapolation C01.Ring C01.RingProofs C02.Select C02.RoundTrip.
+From Inferno Require Import Base.Num Base.NumR Gen.Infra C01.Ring C01.RingProofs C02.Select C02.Matching.
 Import ListNotations.
 Ltac Zify.zify_post_hook ::= Z.div_mod_to_equations.
 Local Open Scope R_scope.
@@ -753,7 +753,7 @@ Proof.
 Qed.
 
 (* ------------------------------------------------------------------ insert followed by select *)
-(* with a matching extrapolation / interpolation pair (C02/RoundTrip.v), selecting at the time just
+(* with a matching extrapolation / interpolation pair (C02/Matching.v; proved for the shipped kernels in C02/RoundTrip.v), selecting at the time just
    inserted (same offset, same tolerance) returns the inserted observation *)
 Theorem insert_select_roundtrip_scalar (s : ringR) (o : obsR) off t interp extrap inplace d sh :
   wfS s -> st s = SFull d sh (rows s) -> shape_eqb (oshape o) sh = true -> length (oel o) = nel sh -> (0 < nel sh)%nat ->
@@ -829,37 +829,6 @@ Proof.
     replace ((off + k + 1) mod Z.of_nat (N s) =? (off + k) mod Z.of_nat (N s))%Z with false
       by (symmetry; apply Z.eqb_neq; congruence).
     rewrite Z.eqb_refl. apply Hm. apply (sample_at_between_range _ k Hbt).
-Qed.
-
-
-(* every extrapolation / interpolation pair shipped by the library as matching satisfies the round-trip
-   law (proved in C02/RoundTrip.v about the generated kernels), so the two round-trip theorems above
-   apply to each of them *)
-Theorem shipped_pairs_matching (tc rc : R) (adjust : option (R -> R)) :
-  matching dt (interp_previous RN) (extrap_previous RN) /\
-  matching dt (interp_next RN) (extrap_next RN) /\
-  matching dt (interp_nearest RN) (extrap_nearest RN) /\
-  matching dt (interp_previous RN) (extrap_neighbors RN) /\
-  matching dt (interp_next RN) (extrap_neighbors RN) /\
-  matching dt (interp_nearest RN) (extrap_neighbors RN) /\
-  matching dt (interp_linear RN) (extrap_neighbors RN) /\
-  matching dt (interp_linear RN) (fun x sa p n st => extrap_linear_forward RN x sa p n st adjust) /\
-  matching dt (interp_linear RN) (fun x sa p n st => extrap_linear_backward RN x sa p n st adjust) /\
-  matching dt (fun p n sa st => interp_expdecay RN p n sa st tc) (fun x sa p n st => extrap_expdecay RN x sa p n st tc) /\
-  matching dt (fun p n sa st => interp_expratedecay RN p n sa st rc) (fun x sa p n st => extrap_expratedecay RN x sa p n st rc).
-Proof.
-  repeat match goal with |- _ /\ _ => split end.
-  - apply rt_previous_previous.
-  - apply rt_next_next.
-  - apply rt_nearest_nearest; exact Hdt.
-  - apply rt_previous_neighbors.
-  - apply rt_next_neighbors.
-  - apply rt_nearest_neighbors.
-  - apply rt_linear_neighbors; exact Hdt.
-  - apply rt_linear_forward; exact Hdt.
-  - apply rt_linear_backward; exact Hdt.
-  - apply rt_expdecay.
-  - apply rt_expratedecay.
 Qed.
 
 End Time.
